@@ -71,6 +71,7 @@ func main() {
 	workers := flag.Int("workers", runtime.NumCPU(), "worker threads")
 	only := flag.String("only", "", "comma-separated harness names to run")
 	verbose := flag.Bool("v", false, "verbose (engine panics are fatal)")
+	sites := flag.Bool("sites", false, "record the source site of every symbolic decision in violations")
 	cross := flag.String("cross", "", "comma-separated secondary solvers for differential check (z3-new,cvc5)")
 	replay := flag.String("replay", "", "replay a violation json in concrete mode")
 	flag.Parse()
@@ -133,7 +134,7 @@ func main() {
 			os.Exit(2)
 		}
 		fmt.Fprintf(os.Stderr, "loaded %v in %.1fs\n", g.Patterns, time.Since(t0).Seconds())
-		e := &Engine{prog: prog, pkgs: pkgs, interpPrefixes: append([]string{"math/bits", "sort", "slices", "cmp"}, interpPrefixesDefault...), builtPkgs: map[*ssa.Package]bool{}, verbose: *verbose}
+		e := &Engine{prog: prog, pkgs: pkgs, interpPrefixes: append([]string{"math/bits", "sort", "slices", "cmp"}, interpPrefixesDefault...), builtPkgs: map[*ssa.Package]bool{}, verbose: *verbose, debugSites: *sites}
 		e.buildInterpreted()
 		for _, c := range strings.Split(*cross, ",") {
 			if c != "" {
